@@ -1042,12 +1042,9 @@ func main() {
 		r.Finish("n/a")
 	}
 	expiredDone := make(chan struct{})
-	if !r.Quick() {
-		go h.expiredLeg(expiredDone)
-	} else {
-		close(expiredDone)
-		r.Extra("expired_token", "skipped in the quick tier (a token must be held for its documented lifetime of 30 s); exercised in the thorough tier")
-	}
+	// runs next to the other probes in both tiers: a token is held for its documented lifetime
+	// (30 s) plus a margin and must then be refused; waiting longer only makes it older
+	go h.expiredLeg(expiredDone)
 
 	cs := h.configs()
 	if only := os.Getenv("VERIF_C27_ONLY"); only != "" { // debugging aid: run a single configuration (floors are then missed)
@@ -1105,9 +1102,7 @@ func main() {
 		r.Floor("failed."+k, min)
 	}
 	r.Floor("class.HANDLER", 1000)
-	if !r.Quick() {
-		r.Floor("expired_token_probes", 5)
-	}
+	r.Floor("expired_token_probes", 5)
 	cleanup()
 	r.Finish("per configuration (API sets, CSRF, header check, credentials, whitelist; fixed list + seeded random subsets) every documented route, every registered route and unknown paths x 7 methods x header variants (one factor at a time around an all-good baseline, plus seeded multi-factor combinations); non-trivial = distinct (configuration, route, method, failed-condition set, response class)",
 		"expected route table (methods, API sets), the CSRF rules and the content-type rule come from src/api/README.md; Host/Origin/Referer rules from the doc comments of HostCheck/OriginRefererCheck; credentials from README 'Authentication'",
